@@ -407,6 +407,12 @@ func c04CheckOutput(c *Ctx, cs *c04Case, level string, out []byte, rq gReq, p0 *
 		return
 	}
 	kind, what := checkDisplay(c, cs.Format, out, want, frames)
+	if kind == "edge-weight-not-mean" {
+		// one signature per printer, whatever the level (fixed upstream-side by aae387b; kept as a regression check)
+		printer := map[string]string{"tree": "printTree", "peek": "printTree", "callgrind": "printCallgrind"}[cs.Format]
+		c.Violation("C04/"+printer+"/edge-weight-not-mean", what+" ["+rq.String()+"]", cs)
+		return
+	}
 	if os.Getenv("VERIF_DEBUG") != "" {
 		fmt.Fprintf(os.Stderr, "---- %s %s output ----\n%s\n---- verdict: %s %s\n", level, cs.Format, out, kind, what)
 	}
@@ -576,6 +582,32 @@ func c04CLICheck(c *Ctx, cs *c04Case, res cliResult) {
 		c.Res.HarnessError = "re-read: " + err.Error()
 		return
 	}
+	if cs.TagRoot != "" || cs.TagLeaf != "" {
+		// pseudo frames from labels: the Lean model of addLabelNodes rewrites the profile
+		var w tw
+		for _, ks := range []string{cs.TagRoot, cs.TagLeaf} {
+			var keys []string
+			for _, k := range strings.Split(ks, ",") {
+				if k != "" {
+					keys = append(keys, k)
+				}
+			}
+			w.n(len(keys))
+			for _, k := range keys {
+				w.str(k)
+			}
+		}
+		reply := c.Drv.Ask("graph.tag " + w.String() + " " + Canon(p0))
+		if !strings.HasPrefix(reply, "ok ") {
+			c.Disagree("C04/cli/tag-model", "graph.tag: "+trunc(reply), "Lean model of addLabelNodes", cs)
+			return
+		}
+		if p0, err = ParseCanon(reply[3:]); err != nil {
+			c.Disagree("C04/cli/tag-model", "graph.tag reply: "+err.Error(), "Lean model of addLabelNodes", cs)
+			return
+		}
+		c.Res.Hit("cli:tagroot/tagleaf")
+	}
 	q, perr := cliReq(c, cs, p0)
 	if perr != "" {
 		c.Disagree("C04/cli/options", perr, "model of driver.aggregate / SampleIndexByName", cs)
@@ -662,12 +694,12 @@ func runC04(c *Ctx) {
 		return
 	}
 	r := NewRng(c.Seed)
-	nProfiles := 260 * c.Scale
+	nProfiles := 450 * c.Scale
 	var cliCases []*c04Case
 	formats := []string{"text", "tree", "dot", "callgrind", "topproto", "traces"}
 	for i := 0; i < nProfiles; i++ {
 		st := c04Strategies[i%len(c04Strategies)]
-		o := &c04GenOpts{Strategy: st, BigValues: r.Chance(15), Labels: r.Chance(25)}
+		o := &c04GenOpts{Strategy: st, BigValues: r.Chance(15), Labels: r.Chance(35)}
 		p := genC04Profile(r, o)
 		canon := Canon(p)
 		sh := c04Classify(p)
@@ -738,6 +770,10 @@ func runC04(c *Ctx) {
 				cs.SampleIndex = p.SampleType[r.Intn(len(p.SampleType))].Type
 			case 3:
 				cs.SampleIndex = "inuse_" + p.SampleType[r.Intn(len(p.SampleType))].Type
+			}
+			if o.Labels {
+				cs.TagRoot = r.Pick([]string{"", "k", "req", "k,req", "nokey", "req,,k"})
+				cs.TagLeaf = r.Pick([]string{"", "k", "req", "nokey,k"})
 			}
 			cliCases = append(cliCases, cs)
 			c.Res.Count(canon+"cli"+strings.Join(cs.cliArgs("F"), " "), nt)
